@@ -448,6 +448,9 @@ var handlerRegistry = typeRegistry{
 			mustNotMemoize,
 			notMarkedNoCache,
 			notMarkedSingleton,
+			// like every other STATIC entry: without this a Reorder'd provider that returns
+			// TerminalError skips the fallible entries and lands here as a plain injector
+			notMarkedReorder,
 			isNotFuncPointer,
 		},
 		mutate: func(a testArgs) {
